@@ -2,6 +2,7 @@
 import pv
 from engines import tensor_common as tc
 from engines import tensor_gen as g
+from engines import scalar
 
 FW = g.FAMILIES["move_fw"] + ["sum_fw", "max_fw", "min_fw", "argmax", "argmin", "batch_sum_fw",
                               "add_fw", "sub_fw", "mul_fw", "adds_fw", "subsr_fw", "subsl_fw", "muls_fw",
@@ -22,6 +23,9 @@ def big_padding_probe(ctx):
 
 def run(ctx):
     ctx.level = "proof"
+    # regenerate Gen/ScalarGen.v from the current tree BEFORE the theorems are recompiled
+    # (Properties_C02_composites / _scalar depend on it)
+    scalar.regenerate()
     res = ctx.prove()
     n = 6000 if ctx.quick() else 80000
     tc.run_stream(ctx, "tensor-fw-naive", FW, n, backend="naive",
